@@ -64,6 +64,9 @@ DTToZonedCells == {[k |-> "PlainDateTime.toZonedOffset", n |-> c[1], t |-> c[2],
                      c \in {<<MaxDay, Midnight>>, <<MaxDay, T5>>, <<MaxDay, Time(5, 0, 0, 0, 0, 1)>>, <<MaxDay, Time(4, 59, 59, 999, 999, 999)>>, <<MaxDay - 1, T19>>, <<MaxDay - 1, Time(19, 0, 0, 0, 0, 1)>>,
                              <<MinDay, T19>>, <<MinDay, Time(18, 59, 59, 999, 999, 999)>>, <<MinDay + 1, Midnight>>, <<MinDay + 1, T5>>, <<MinDay + 1, Time(4, 59, 59, 999, 999, 999)>>, <<0, Midnight>>},
                      off \in {300, -300, 0}}
+\* the same wall-clock readings as zoned strings with their offset written out, under every offset option (the offset is the
+\* zone's own): the instant must lie within the limits, and under prefer / reject also the wall date within 10^8 days of the epoch
+ZStrCells == {[k |-> "ZonedDateTime.fromStrOffset", n |-> c.n, t |-> c.t, off |-> c.off, oo |-> oo] : c \in DTToZonedCells, oo \in {"use", "reject", "prefer", "ignore"}}
 \* PlainDate.toZonedDateTime({timeZone: UTC, plainTime}): the combined date-time must be within the date-time limits (step 6.c) and its
 \* instant within the instant limits; tt = "none" is the start of the day
 DateToZonedCells == {[k |-> "PlainDate.toZonedUtc", n |-> n, tt |-> tt] : n \in {MinDay, MinDay + 1, MaxDay - 1, MaxDay, 0}, tt \in {"none", "midnight", "t1", "last"}}
@@ -100,7 +103,7 @@ PrimKinds == {"Prim.truncated", "Prim.integral", "Prim.positive"}
 FFCells == UNION {{[k |-> kk, ty |-> ty, v |-> v, frac |-> FALSE] : kk \in PrimKinds, v \in {x \in FFVals(ty) : ty # "i64" \/ x # TyMax(ty)}} : ty \in IntTys}
            \cup {[k |-> kk, ty |-> ty, v |-> FromInt(n), frac |-> TRUE] : kk \in PrimKinds, ty \in IntTys, n \in {0, 1, -1, 254, 255}}
 Cells == EpochFromCells \cup FFCells \cup DateNewCells \cup DateAddCells \cup DateAddMonthCells \cup DateAddWeekCells \cup DTNewCells \cup DTAddCells \cup DTRoundCells \cup DateToDTCells \cup DateEpochCells \cup DateToZonedCells \cup DateConstrainCells \cup DTToZonedCells
-         \cup DateConvCells \cup StrCells \cup ZdtCells \cup InstNewCells \cup InstAddCellsOK \cup InstMsCells \cup InstRoundCellsOK \cup DurAddCells
+         \cup DateConvCells \cup StrCells \cup ZStrCells \cup ZdtCells \cup InstNewCells \cup InstAddCellsOK \cup InstMsCells \cup InstRoundCellsOK \cup DurAddCells
 
 \* the call (op, args) and its expected outcome
 Call(c) ==
@@ -128,6 +131,13 @@ Call(c) ==
                   ELSE LET m == IF c.d.m < 1 THEN 1 ELSE IF c.d.m > 12 THEN 12 ELSE c.d.m
                            dd == IF c.d.d < 1 THEN 1 ELSE IF c.d.d > DIM(c.d.y, m) THEN DIM(c.d.y, m) ELSE c.d.d
                        IN IF InDateRange(DFC(Date(c.d.y, m, dd))) THEN Ok(Date(c.d.y, m, dd)) ELSE ErrRange]
+    [] c.k = "ZonedDateTime.fromStrOffset" ->
+         LET x == DT(CivilFromDays(c.n), c.t)
+             ns == Sub(Add(Mul(DayNsBig, FromInt(c.n)), TimeNsOf(c.t)), K9(FromInt(c.off * 60)))
+         IN [op |-> c.k, args |-> [dt |-> DTJ(x), off |-> c.off, offopt |-> c.oo],
+             \* prefer / reject look at the zone's candidates for the WALL date (CheckISODaysRange on it: 10^8 days either side of the
+             \* epoch); use / ignore only balance the reading to UTC and check that date, which the instant limits already imply
+             out |-> IF (c.oo \in {"prefer", "reject"} /\ AbsI(c.n) > 100000000) \/ ~InInstantRange(ns) THEN ErrRange ELSE Ok(ns)]
     [] c.k = "PlainDateTime.toZonedOffset" ->
          LET x == DT(CivilFromDays(c.n), c.t)
              ns == Sub(Add(Mul(DayNsBig, FromInt(c.n)), TimeNsOf(c.t)), K9(FromInt(c.off * 60)))
